@@ -227,6 +227,10 @@ def programs(tier: str) -> list[Program]:
                 ps.append(Program(f"{pname}/{backend}/faults<={mf}", {"program": pname, "backend": backend, "max_faults": mf},
                                   (lambda ex, pname=pname, backend=backend, mf=mf: execute(ex, pname, backend, mf)),
                                   max_dev=(2 if q else 4) + mf))
+    # three separate, individually recovered faults in one server lifetime (each write has its own retry budget)
+    for pname in ("ok", "fail"):
+        ps.append(Program(f"{pname}/sqlite/faults<=3", {"program": pname, "backend": "sqlite", "max_faults": 3},
+                          (lambda ex, pname=pname: execute(ex, pname, "sqlite", 3)), max_dev=(5 if q else 7)))
     # transient failures of event-log writes (append_event) as well
     for pname in ("ok", "fail", "cancel"):
         for mf in (1, 2):
